@@ -319,6 +319,8 @@ _ML4 = st.lists(st.sampled_from([0.0, 1.0, 2.5]) | st.floats(1e-3, 1e6, allow_na
 _FIELDS = st.lists(st.sampled_from(["_id", "_source", "title", "geo"]), min_size=1, max_size=2, unique=True)
 _DISK_PARTS = st.lists(st.tuples(_BYTES, st.booleans()), min_size=len(DISK_METRICS) - 1, max_size=len(DISK_METRICS) - 1)
 _FEW = st.sampled_from([0, 0, 1, 2])
+# the indices of two races need not be the same, and one that only one race has may sort before one that both have
+_INDEX_NAMES = st.sampled_from([[], [], ["idx-0"], ["idx-0", "idx-1"], ["archive", "idx-0"], ["idx-0"], ["idx-1"], ["archive", "idx-0", "idx-1"], ["idx-0", "zz-last"]])
 
 
 def _global_records(draw):
@@ -341,13 +343,13 @@ def _global_records(draw):
         vals = draw(fixed_list(value(1e7), len(TRANSFORM_METRICS)))
         for name, v in zip(sorted(TRANSFORM_METRICS), vals):
             g["transform"].append({"name": name, "id": f"transform-{j}", "value": v})
-    for idx in range(draw(_FEW)):
+    for idx in draw(_INDEX_NAMES):
         for field in draw(_FIELDS):
             parts = draw(_DISK_PARTS)
             for name, (v, present) in zip(DISK_METRICS[1:], parts):
                 if present:
-                    g["disk"].append({"name": name, "index": f"idx-{idx}", "field": field, "value": v})
-            g["disk"].append({"name": "disk_usage_total", "index": f"idx-{idx}", "field": field, "value": sum(v for v, _ in parts)})
+                    g["disk"].append({"name": name, "index": idx, "field": field, "value": v})
+            g["disk"].append({"name": "disk_usage_total", "index": idx, "field": field, "value": sum(v for v, _ in parts)})
     return g
 
 
@@ -508,13 +510,13 @@ def result_dict(draw, task_names=None, negative=False):
         vals = draw(fixed_list(num, n_tf))
         d[attr] = [{"id": f"transform-{j}", "mean": vals[j], "unit": "docs/s" if attr.endswith("throughput") else "ms"} for j in range(n_tf)]
     disk = {name: [] for name in DISK_METRICS}
-    for idx in range(draw(_FEW)):
+    for idx in draw(_INDEX_NAMES):
         for field in draw(_FIELDS):
             parts = draw(_DISK_PARTS)
             for name, (v, present) in zip(DISK_METRICS[1:], parts):
                 if present:
-                    disk[name].append({"index": f"idx-{idx}", "field": field, "value": v, "unit": "byte"})
-            disk["disk_usage_total"].append({"index": f"idx-{idx}", "field": field, "value": sum(v for v, _ in parts), "unit": "byte"})
+                    disk[name].append({"index": idx, "field": field, "value": v, "unit": "byte"})
+            disk["disk_usage_total"].append({"index": idx, "field": field, "value": sum(v for v, _ in parts), "unit": "byte"})
     d.update(disk)
     return d
 
